@@ -2,6 +2,7 @@ package verifharness
 
 import (
 	"fmt"
+	"math"
 	"sort"
 	"strconv"
 	"strings"
@@ -356,6 +357,35 @@ func h1Oracles(env *Env, c *H1Cfg, st *h1State, hr *h1Run, runIdx int, stats sim
 				earliest = start + earliest - 10*ms
 				if g.Cancelled && g.CancelNs < earliest {
 					earliest = max(g.CancelNs, start)
+				}
+				// … and only while something is in flight: when the timeout expires some worker must still be busy with
+				// an iteration (its body or its cleanups); workers between iterations take no simulated time
+				if tm := rec.timeoutReportedAt(); tm >= 0 && stats.Stalls == 0 && c.SlowOutputNs == 0 {
+					busy := false
+					for _, b := range g.Bodies {
+						if b.BeginNs > tm {
+							continue
+						}
+						end := b.EndNs
+						if !b.Ended || len(b.CleanupRuns) < len(b.Registered) {
+							end = math.MaxInt64
+						} else {
+							for _, cr := range b.CleanupRuns {
+								if cr.Idx >= 0 && cr.Idx < len(b.Plan.Cleanups) {
+									end = max(end, cr.T+b.Plan.Cleanups[cr.Idx].SleepNs)
+								}
+							}
+						}
+						if end >= tm-ms {
+							busy = true
+							break
+						}
+					}
+					if !busy {
+						env.Violate("C05", "completion-timeout-with-nothing-in-flight", "run/"+c.Mode, "\"Active tests not completed\" reported at %s although every started iteration (%d) had finished, cleanups included, before that",
+							dur(tm), len(g.Bodies))
+					}
+					env.Hit("h1.timeout_inflight_checked")
 				}
 				if tm := rec.timeoutReportedAt(); tm >= 0 && tm < earliest+c.WaitTimeoutNs-ms {
 					env.Violate("C05", "completion-timeout-reported-early", "run/"+c.Mode, "\"Active tests not completed\" reported at %s, but triggering could not stop before %s and the completion timeout is %s",
